@@ -339,7 +339,9 @@ func fnName(fn *ssa.Function) string {
 func (m *Machine) callFn(caller *frame, fn *ssa.Function, args []Value, env []Value) Value {
 	name := fnName(fn)
 	if h, ok := intrinsics[name]; ok {
-		return h(m, caller, fn, args)
+		if v := h(m, caller, fn, args); v != notHandled {
+			return v
+		}
 	}
 	if fn.Name() == "init" && fn.Pkg != nil && !isRepoPkg(fn.Pkg) && fn.Signature.Recv() == nil {
 		return nil // dependency package initialisers are not run
@@ -1474,7 +1476,7 @@ func (m *Machine) callBuiltin(fr *frame, b *ssa.Builtin, args []Value) Value {
 			}
 			return r
 		case Str:
-			for i := range t.S {
+			for i := 0; i < len(t.S); i++ {
 				a = append(a, t.at(i))
 			}
 			return a
